@@ -295,7 +295,9 @@ def itemised(ts, as_):
                 elif l[0] in ('AK4', 'IK4') and cur is not None and g(cur, 1) == s['id'] and g(cur, 2) == str(s['count']):
                     p = (g(l, 1) or '').split(':')
                     if p[0] == str(pos) and (not sub or (len(p) > 1 and p[1] == str(sub))) and g(l, 3) == code:
-                        if not val or any(c in val for c in '~*:') or '*'.join(l[4:]) == val:
+                        # AK404 / IK404 is the offending value without the characters the acknowledgement itself is written
+                        # with (~ * : and the repetition separator ^): X12 has no escape mechanism (as in C03, DESIGN 10 row 15)
+                        if not val or '*'.join(l[4:]) == ''.join(c for c in val if c not in '~*:^\r\n'):
                             found = True
             if not found:
                 v.append(('C05|ack|element error not itemised', 'element error %s at %s #%s pos %s-%s value %r not found; lines %r'
